@@ -249,7 +249,9 @@ def _check_interval_forms(acc, mods, fa, dur, ds, dur_case):
     # model of the duration arithmetic stays valid) - both endpoints must be in that zone
     tzopt = pendulum.FixedTimezone(19800)
     forms = [(s_, es, ee, kind, None, 0) for s_, es, ee, kind in forms] + \
-            [(s_.replace("Z", ""), es, ee, kind + "/tz-option", tzopt, 19800) for s_, es, ee, kind in forms]
+            [(s_.replace("Z", ""), es, ee, kind + "/tz-option", tzopt, 19800) for s_, es, ee, kind in forms] + \
+            [(s_.replace("Z", txt), es, ee, kind + "/explicit-offset", None, off) for s_, es, ee, kind in forms
+             for txt, off in (("-05:00", -18000), ("+03:00", 10800))]
     for s, es, ee, kind, tzo, eoff in forms:
         case = {"kind": "iv", "fa": list(fa), "dur": dur_case}
         acc.c["evaluations"] += 1
